@@ -488,6 +488,7 @@ func (cw *CWorld) issue(t *AToken) (delegation.Delegation, error) {
 	plinks := links
 	if !t.Intact {
 		switch t.Tamper {
+		case "v": // the version field is altered after signing (nothing to prepare)
 		case "aud":
 			aud = cw.P[(t.Aud+1)%len(cw.P)].did
 		case "exp":
@@ -557,6 +558,9 @@ func (cw *CWorld) issue(t *AToken) (delegation.Delegation, error) {
 		}
 	}
 	// final fields
+	if !t.Intact && t.Tamper == "v" {
+		model.V = "0.9.2"
+	}
 	model.Aud = cw.P[t.Aud].did.Bytes()
 	model.Exp = t.Exp
 	if t.Nbf != 0 {
@@ -656,6 +660,9 @@ func Concretise(w *AWorld) (*CWorld, error) {
 func (cw *CWorld) expand(s string) string {
 	if !strings.HasPrefix(s, "@") {
 		return s
+	}
+	if strings.HasSuffix(s, "^") { // the same DID string with the case of its letters swapped
+		return swapCase(cw.expand(strings.TrimSuffix(s, "^")))
 	}
 	rest := s[1:]
 	cut := ""
@@ -868,6 +875,14 @@ func (cw *CWorld) context(log *runLog) (canIssue validator.CanIssueFunc[any], ch
 		rk[cw.P[kv[0]].did.String()] = cw.P[kv[1]].did
 	}
 	resolveKey = func(d did.DID) (did.DID, validator.UnresolvedDID) {
+		if cw.phase == "permissive" {
+			// whatever key actually signed this issuer's tokens (a rotated or corrected resolver entry)
+			for _, t := range w.Tokens {
+				if cw.P[t.Iss].did.String() == d.String() && t.Signer >= 0 && cw.P[t.Signer].signer != nil && isKeyKind(w.Principals[t.Signer].Kind) {
+					return cw.P[t.Signer].did, nil
+				}
+			}
+		}
 		if k, ok := rk[d.String()]; ok && cw.phase != "deny" {
 			return k, nil
 		}
@@ -1000,4 +1015,17 @@ func resign(m *udm.UCANModel, rt ipld.Block, sgn ucan.Signer) (out ipld.Block, o
 		return nil, false
 	}
 	return nb, true
+}
+
+func swapCase(s string) string {
+	b := []byte(s)
+	for i, c := range b {
+		switch {
+		case c >= 'a' && c <= 'z':
+			b[i] = c - 32
+		case c >= 'A' && c <= 'Z':
+			b[i] = c + 32
+		}
+	}
+	return string(b)
 }
